@@ -503,9 +503,10 @@ class SimpleJSONRPCRequestHandler(SimpleXMLRPCRequestHandler):
                 raw_chunk = self.rfile.read(chunk_size)
                 if not raw_chunk:
                     break
-                chunks.append(utils.from_bytes(raw_chunk))
+                # Store raw data as it might not contain whole wide-character
+                chunks.append(raw_chunk)
                 size_remaining -= len(raw_chunk)
-            data = "".join(chunks)
+            data = utils.from_bytes(b"".join(chunks))
 
             try:
                 # Decode content
